@@ -5,9 +5,11 @@
 //! `.`, other entries, dangling); they are backed up by the real code and restored with several
 //! subtree / exclude selections, with and without the overwrite option.
 //! Oracle (no model): everything not under the destination is identical before and after
-//! (`restore:escaped-destination`; for a version whose backup was interrupted, the known finding
-//! `restore:escaped-via-interrupted-version`); a non-empty destination without the overwrite
-//! option is refused and left identical (`restore:clobbered`).
+//! (`restore:escaped-destination`; for a version whose backup was interrupted — D11, repaired in
+//! /repo commit 7db24bb — still `restore:escaped-via-interrupted-version` should it come back); the
+//! D11 shape must be refused with an `invalid-metadata` error for what lies below the symlink
+//! (`restore:guard-silent` otherwise); a non-empty destination without the overwrite option is
+//! refused and left identical (`restore:clobbered`).
 //! Correspondence: the final real sandbox vs `restoreToFs` of the Lean model on the same initial
 //! file system and the node list the store-level model produces (`fs-restore` request).
 use crate::absarch::abstract_archive;
@@ -245,6 +247,7 @@ struct Pending {
     t0_ns: i64,
     after: Vec<Obs>,
     real: RunResult,
+    known_gap: bool,
 }
 
 fn now_ns() -> i64 {
@@ -255,7 +258,7 @@ fn now_ns() -> i64 {
 #[allow(clippy::too_many_arguments)]
 fn one_restore(
     report: &mut Report, session: &mut Session, pend: &mut Vec<Pending>, rng: &mut Rng, case_base: &Value, arch: &Path, sb: &Path,
-    all_apaths: &BTreeSet<String>, collide: &[(String, bool)], kind: DestKind, p: RestoreParams, interrupted: bool,
+    all_apaths: &BTreeSet<String>, collide: &[(String, bool)], kind: DestKind, p: RestoreParams, interrupted: bool, expect_guard: bool, known_gap: bool,
 ) {
     build_sandbox(sb, kind, collide, rng);
     let dest = sb.join("dest");
@@ -279,6 +282,21 @@ fn one_restore(
         report.oracle_fail(sig, case.clone(), "something outside the destination directory changed during restore", d);
         report.hit(if interrupted { "escape:interrupted-version" } else { "escape:complete-version" });
     }
+    if expect_guard {
+        // the D11 shape, whole tree into an empty destination: `/a/b` lies below the symlink `/a`
+        // of the same listing and must be refused, loudly
+        let n = real.events.iter().filter(|e| e.as_str() == "event error invalid-metadata").count();
+        if n == 0 || !real.result.starts_with("result ok") {
+            report.oracle_fail("restore:guard-silent", case.clone(), "the entry below a symlink of the same listing was not reported as invalid-metadata", json!({"result": trunc(&real.result), "events": real.events.iter().take(4).collect::<Vec<_>>()}));
+        }
+        if dest.join("a").join("b").exists() || !dest.join("a").is_symlink() {
+            report.oracle_fail("restore:guard-silent", case.clone(), "the D11 shape did not restore `/a` as a symlink with nothing below it", json!(after.iter().map(obs_json).collect::<Vec<_>>()));
+        }
+        report.hit("guard:d11-shape-refused");
+    }
+    if real.events.iter().any(|e| e == "event error invalid-metadata") {
+        report.hit("guard:invalid-metadata-reported");
+    }
     if dest_nonempty && !p.overwrite {
         // refused either for being non-empty, or earlier because the version cannot be opened
         let earlier = ["result err band-head-missing", "result err band-not-found", "result err no-complete-bands"].iter().any(|e| real.result.starts_with(e));
@@ -298,7 +316,7 @@ fn one_restore(
     if !p.exclude.is_empty() {
         report.hit("select:exclude");
     }
-    pend.push(Pending { case, sb: sb.to_path_buf(), i_nodes, fs_toks, overwrite: p.overwrite, t0_ns, after, real });
+    pend.push(Pending { case, sb: sb.to_path_buf(), i_nodes, fs_toks, overwrite: p.overwrite, t0_ns, after, real, known_gap });
 }
 
 fn gen_selection(rng: &mut Rng, tree: &Tree) -> (Option<String>, Vec<String>) {
@@ -423,7 +441,7 @@ pub fn run(tier: &str, seed: u64, report: &mut Report) {
         report.hit(&format!("scenario:{}", scenario));
         let collide: Vec<(String, bool)> = tree.nodes.values().filter(|n| n.comps.len() == 1).map(|n| (n.comps[0].clone(), n.kind == NodeKind::Dir)).collect();
         // ---- restores
-        let mut plans: Vec<(DestKind, RestoreParams, bool)> = Vec::new();
+        let mut plans: Vec<(DestKind, RestoreParams, bool, bool)> = Vec::new();
         let sels: Vec<(Sel, bool)> = match (scenario, interrupted_band) {
             (_, Some(b)) => vec![(Sel::Band(b), true), (Sel::Band(0), false), (Sel::Closed, false)],
             (1, _) if swapped.is_some() => vec![(Sel::Band(0), false), (Sel::Band(1), false), (Sel::Closed, false)],
@@ -431,17 +449,29 @@ pub fn run(tier: &str, seed: u64, report: &mut Report) {
         };
         for (sel, interrupted) in &sels {
             // whole tree into an empty destination, always
-            plans.push((DestKind::Empty, RestoreParams { sel: sel.clone(), subtree: None, exclude: vec![], overwrite: false }, *interrupted));
+            plans.push((DestKind::Empty, RestoreParams { sel: sel.clone(), subtree: None, exclude: vec![], overwrite: false }, *interrupted, *interrupted && scenario == 2));
             let extra = if thorough { 4 } else { 2 };
             for _ in 0..extra {
                 let kind = *rng.pick(&[DestKind::Empty, DestKind::EmptySetgid, DestKind::Absent, DestKind::Populated, DestKind::Populated]);
                 let (subtree, exclude) = gen_selection(&mut rng, &tree);
                 let overwrite = rng.chance(1, 2);
-                plans.push((kind, RestoreParams { sel: sel.clone(), subtree, exclude, overwrite }, *interrupted));
+                plans.push((kind, RestoreParams { sel: sel.clone(), subtree, exclude, overwrite }, *interrupted, false));
             }
         }
-        for (kind, p, interrupted) in plans {
-            one_restore(report, &mut session, &mut pend, &mut rng, &case_base, &arch, &sb, &all_apaths, &collide, kind, p, interrupted);
+        // The code's guard only counts symlinks it managed to create; the store-level model counts every
+        // symlink entry (it cannot know whether `symlink()` succeeded).  The two differ exactly when the
+        // swapped symlink cannot be created because the pre-populated destination already holds its
+        // name (or a file where its parent should be).  Random plans keep away from that collision;
+        // one plan per D11-shape case keeps it, labelled, to document the difference.
+        let swapped_top: Option<String> = swapped.as_ref().map(|d| d[1..].split('/').next().unwrap().to_string());
+        let collide_safe: Vec<(String, bool)> = collide.iter().filter(|(n, _)| Some(n) != swapped_top.as_ref()).cloned().collect();
+        if scenario == 2 && interrupted_band.is_some() {
+            let p = RestoreParams { sel: Sel::Band(1), subtree: None, exclude: vec![], overwrite: true };
+            one_restore(report, &mut session, &mut pend, &mut rng, &case_base, &arch, &sb, &all_apaths, &collide, DestKind::Populated, p, true, false, true);
+        }
+        for (kind, p, interrupted, expect_guard) in plans {
+            let c = if interrupted { &collide_safe } else { &collide };
+            one_restore(report, &mut session, &mut pend, &mut rng, &case_base, &arch, &sb, &all_apaths, c, kind, p, interrupted, expect_guard, false);
         }
         drop(work);
     }
@@ -502,7 +532,30 @@ fn compare_fs(report: &mut Report, p: &Pending, store_events: &[String], model: 
             _ => {}
         }
     }
-    // errors: the store-level half logs block errors, the fs half everything else; compare names in order
+    {
+        // The code's guard only counts symlinks it managed to create (`restored_symlinks.insert` comes
+        // after a successful `restore_symlink`); the store-level model counts every symlink entry, it
+        // cannot know whether `symlink()` succeeded.  When a symlink of an interrupted version's listing
+        // could not be created (EEXIST in a pre-populated destination, ENOENT when it is the root of the
+        // selected subtree and its parent does not exist) the code goes on to the entries below it —
+        // inside the destination, or failing — while the model has dropped them with invalid-metadata.
+        // Documented difference: such runs are counted, not compared (the oracle above still applies).
+        let interrupted = p.case["interrupted_version"].as_bool().unwrap_or(false);
+        let real_has_symlink_err = p.real.events.iter().any(|e| e.contains("RestoreSymlink"));
+        let model_dropped = store_events.iter().any(|e| e.contains("invalid-metadata"));
+        // (since /repo 3da10b6 the code records a symlink entry before trying to create it, like the
+        // model: these runs are compared like all others; the counter stays for the evidence)
+        if interrupted && real_has_symlink_err && model_dropped {
+            report.hit("guard:symlink-creation-failed-entries-below-still-refused");
+        }
+        if p.known_gap {
+            report.hit("known-gap:not-triggered");
+        }
+    }
+    // errors: the store-level half logs block errors and guard refusals, the fs half everything else.
+    // The code tests the destination before it looks at the first entry: when the fs half refuses
+    // (destination not empty, I/O error) the per-entry loop never ran and has reported nothing.
+    let store_events: &[String] = if mresult == "result ok" { store_events } else { &[] };
     let real_errs: Vec<String> = p.real.events.iter().filter_map(|e| e.strip_prefix("event error ")).map(|e| e.strip_prefix("other:").unwrap_or(e).split(':').next().unwrap().to_string()).collect();
     let mut model_errs: Vec<String> = store_events.iter().filter_map(|e| e.strip_prefix("event error ")).map(|e| e.split(':').next().unwrap().to_string()).collect();
     model_errs.extend(merrs.iter().cloned());
